@@ -113,7 +113,7 @@ contract(Contract(
 
 contract(Contract(
     target=N + "render_table_cell",
-    props=["C01", "C12"],
+    props=["C01", "C04", "C12"],
     params={"element": "ref:Element"},
     self_cls="MarkdownNormalizer",
     setup=self_setup,
